@@ -90,6 +90,7 @@ impl File {
                     self.write_all_at_aio(offset, b2, rio).await?;
                 }
             }
+            self.sync.note_written(len);
             Ok(data)
         } else {
             self.sync.write_append_writable_data(c).await
@@ -98,8 +99,11 @@ impl File {
 
     pub(crate) async fn write_append_all(&self, buf: Bytes) -> IOResult<()> {
         if let Some(ref rio) = self.rio {
-            let offset = self.sync.file_size_append(buf.len() as u64);
-            self.write_all_at_aio(offset, buf, rio).await
+            let len = buf.len() as u64;
+            let offset = self.sync.file_size_append(len);
+            self.write_all_at_aio(offset, buf, rio).await?;
+            self.sync.note_written(len);
+            Ok(())
         } else {
             self.sync.write_append_all(buf).await
         }
@@ -139,7 +143,7 @@ impl File {
 
     pub(crate) async fn fsyncdata(&self) -> IOResult<()> {
         if let Some(ref rio) = self.rio {
-            let size = self.size();
+            let size = self.sync.written_size();
             rio.fsync(self.sync.std_file_ref()).await?;
             self.sync.set_synced_size(size);
             Ok(())
